@@ -11,7 +11,7 @@ import vlib, build, bpbind, gen
 from vlib import VERIF, Evidence, Reporter, run_tlc, write_cfg, scratch, SEED, sh
 
 PID = "C15"
-BUFSZ = 262144
+BUFSZ = build.src_define("lib/xfrm/src/ostream.c", "BUFSZ", 262144)        # buffer of the stream wrappers in the tree under test
 CODECS = ["gzip", "xz", "bzip2"] + (["zstd"] if vlib.have("zstd") else [])      # the zstd reference is the command line tool
 
 
@@ -103,7 +103,7 @@ def run(tier):
         ev.write()
         return 2
     binp = work + "/replay_xfrm"
-    if not build.compile_harness(VERIF + "/harness/replay_xfrm.c", binp, variant="plain"):
+    if not build.compile_harness(VERIF + "/harness/replay_xfrm.c", binp, variant="plain", extra=["-DUNIT=%d" % (BUFSZ // 2)]):
         raise RuntimeError("harness build failed")
     replays = 0
     # ---- R1: emitted append patterns on the real wrapper with the scripted codec ---------------------
